@@ -4,7 +4,7 @@
    the Chebyshev nodes) is recomputed independently by the harness with float oracles (erf): no
    theorem covers it (see DESIGN.md). *)
 From Coq Require Import ZArith QArith Qreals List Reals Bool.
-From PyqspV Require Import Base.Ops Model.QInst Model.Checkers Theory.SupT Theory.SupMonoT Theory.AccT Theory.AccMonoT.
+From PyqspV Require Import Base.Ops Model.QInst Model.Checkers Theory.SupT Theory.SupMonoT Theory.AccT Theory.AccMonoT Theory.AccHiT.
 Import ListNotations.
 Open Scope R_scope.
 
@@ -34,3 +34,29 @@ Theorem C16_target_enclosure tau x xr : IntervalT.inI x xr ->
   IntervalT.inI (fst (cs_scaled tau x)) (cos (Q2R tau * xr)) /\ IntervalT.inI (snd (cs_scaled tau x)) (sin (Q2R tau * xr)).
 Proof. exact (cs_scaled_ok tau x xr). Qed.
 Print Assumptions C16_target_enclosure.
+
+(* high-order certificates (any eps): Taylor shift of p on x-cells with |tau| r <= 1, the target through the
+   addition formulas and the alternating-series remainders of cos u, sin u for |u| <= 1; 1/x through the
+   geometric series on cells with r < x0 *)
+Theorem C16_trig_accuracy_high_order_mono usesin p s tau cells n eps : check_trig_acc_hi usesin p s tau cells n eps = true ->
+  forall x, -1 <= x <= 1 ->
+  Rabs (pevalRl (map Q2R p) x - Q2R s * (if usesin then sin (Q2R tau * x) else cos (Q2R tau * x))) <= Q2R eps.
+Proof. exact (check_trig_acc_hi_sound usesin p s tau cells n eps). Qed.
+Print Assumptions C16_trig_accuracy_high_order_mono.
+
+Theorem C16_trig_accuracy_high_order_cheb usesin c s tau cells n eps : check_trig_acc_hi_cheb usesin c s tau cells n eps = true ->
+  forall x, -1 <= x <= 1 ->
+  Rabs (cheb_series (map Q2R c) x - Q2R s * (if usesin then sin (Q2R tau * x) else cos (Q2R tau * x))) <= Q2R eps.
+Proof. exact (check_trig_acc_hi_cheb_sound usesin c s tau cells n eps). Qed.
+Print Assumptions C16_trig_accuracy_high_order_cheb.
+
+Theorem C16_inverse_accuracy_high_order c scale kappa cells K tol : check_inv_acc_hi_cheb c scale kappa cells K tol = true ->
+  0 < Q2R scale /\ 0 < Q2R kappa /\
+  forall x, / Q2R kappa <= x <= 1 -> Rabs (cheb_series (map Q2R c) x / Q2R scale - / x) <= Q2R tol.
+Proof. exact (check_inv_acc_hi_cheb_sound c scale kappa cells K tol). Qed.
+Print Assumptions C16_inverse_accuracy_high_order.
+
+(* the Taylor shift used by both: the shifted coefficient list denotes p(x0 + d) *)
+Theorem C16_taylor_shift (p : list R) x0 d : pevalRl (pshift_at SupMonoT.OpsRR p x0) d = pevalRl p (x0 + d).
+Proof. exact (pshift_at_sound p x0 d). Qed.
+Print Assumptions C16_taylor_shift.
